@@ -50,8 +50,13 @@ func (g *TxGen) mkRegisterRuntime() *GenTx {
 	gt := g.finish(signer, tx, note)
 	gt.Intent = intent
 	gt.OnSuccess = func() {
-		sc.Runtime.TxnScheduler.MaxBatchSize = nd.TxnScheduler.MaxBatchSize
-		sc.Runtime.GovernanceModel = nd.GovernanceModel
+		// Copy on write: the genesis document keeps pointing at the original
+		// descriptor, so replicas initialised later (twins, restarts from
+		// genesis) still start from the same genesis state.
+		upd := *sc.Runtime
+		upd.TxnScheduler.MaxBatchSize = nd.TxnScheduler.MaxBatchSize
+		upd.GovernanceModel = nd.GovernanceModel
+		sc.Runtime = &upd
 		g.Notes[note]++
 	}
 	return gt
